@@ -222,3 +222,176 @@ def crafted_decodes():
             ('R', le(3, 4) + le(3, 8) + b'abc', 'file content without flag'),
             ('R', le(3, 4) + le(3, 8) + b'\xff\xfe\xfd' + b'\x00' + b'tail', 'file content binary with tail')]
     return out
+
+
+# ------------------------------------------------------------------------------------------------
+# the encrypted TCP leg (harness sub `link`, judge request K): message descriptions with their sizes
+PATH_COMPONENT_MAX = 255           # bytes, Linux NAME_MAX
+PATH_MAX = 4096                    # Linux; a root-relative path stays below it
+WIN_PATH_MAX_UTF8 = 32767 * 3      # Windows extended-length path, UTF-16 units -> UTF-8 bytes (upper bound)
+LEGIT_STRINGS_MAX = 98304          # python side's notion of "a message the protocol can produce": all strings <= 96 KiB
+PATH_TOTALS = [0, 1, 64, 200, 217, 218, 219, 220, 255, 256, 300, 511, 766, 1000, 2047, 3000, 4000, 4095]
+_COMP_CHARS = 'abcdefghijklmnopqrstuvwxyzABCXYZ0123456789._- '
+_WIDE = ['é', '€', '\U0001F600']
+
+
+def long_path(rng, total, wide=False):
+    """A normalised root-relative path ('' = the root) of exactly `total` bytes: components of at most 255 bytes
+    separated by '/', several levels when it is long; with `wide` some characters take 2 to 4 bytes."""
+    if total <= 0:
+        return ''
+    comps, left = [], total
+    while left > 0:
+        room = min(left, PATH_COMPONENT_MAX)
+        n = room if (left <= PATH_COMPONENT_MAX or rng.random() < 0.6) else rng.randrange(1, room + 1)
+        if left - n == 1:          # a lone separator cannot end the path
+            n -= 1 if n > 1 else -1
+            n = min(n, left)
+        out, size = [], 0
+        while size < n:
+            ch = rng.choice(_WIDE) if (wide and rng.random() < 0.15) else rng.choice(_COMP_CHARS)
+            b = len(ch.encode())
+            if size + b > n:
+                ch, b = 'x', 1
+            out.append(ch)
+            size += b
+        comp = ''.join(out)
+        if comp in ('.', '..') or comp.strip() == '':
+            comp = 'd' * n
+        comps.append(comp)
+        left -= n
+        if left > 0:
+            left -= 1              # the separator
+            if left == 0:          # would end with '/': give the byte to the last component instead
+                comps[-1] += 'z'
+    p = '/'.join(comps)
+    assert len(p.encode()) == total, (total, len(p.encode()))
+    return p
+
+
+def parse_desc(toks, i, kind):
+    """Reads one message description (without the leading C / R) from the token list, like the Rust and OCaml
+    parsers do.  Returns ({'variant', 'data', 'strings', 'final', 'text'}, next index)."""
+    start = i
+
+    def hexlen(t):
+        return 0 if t == '-' else len(t) // 2
+    v = toks[i]; i += 1
+    data, strings = None, 0
+
+    def details(i):
+        k = toks[i]; i += 1
+        s = 0
+        if k == 'file':
+            i += 2
+        elif k == 'symlink':
+            i += 2
+            s = hexlen(toks[i]); i += 1
+        return s, i
+
+    def marker(i):
+        i += 1
+        ph = toks[i]; i += 1
+        return i + {'deleting': 1, 'copying': 2, 'done': 0}[ph]
+    if kind == 'C':
+        if v in ('SetRoot', 'GetFileContent', 'CreateFolder', 'DeleteFile', 'DeleteFolder'):
+            strings = hexlen(toks[i]); i += 1
+        elif v == 'GetEntries':
+            n = int(toks[i]); i += 1
+            strings = sum(hexlen(t) for t in toks[i:i + n]) + 8 * n; i += n
+            nk = int(toks[i]); i += 1 + nk
+            strings += 4 * nk
+        elif v == 'CreateOrUpdateFile':
+            strings = hexlen(toks[i]); i += 1
+            data = int(toks[i].split(':')[0]); i += 3
+        elif v == 'CreateSymlink':
+            strings = hexlen(toks[i]); i += 3
+            strings += hexlen(toks[i]); i += 1
+        elif v == 'DeleteSymlink':
+            strings = hexlen(toks[i]); i += 2
+        elif v == 'Marker':
+            i = marker(i)
+        elif v not in ('CreateRootAncestors', 'ProfilingTimeSync', 'Shutdown'):
+            raise ValueError('command ' + v)
+        final = v == 'Shutdown'
+    else:
+        if v == 'RootDetails':
+            o = toks[i]; i += 1
+            if o == 'some':
+                strings, i = details(i)
+            i += 1
+            strings += hexlen(toks[i]); i += 1
+        elif v == 'Entry':
+            strings = hexlen(toks[i]); i += 1
+            s, i = details(i)
+            strings += s
+        elif v == 'FileContent':
+            data = int(toks[i].split(':')[0]); i += 2
+        elif v == 'ProfilingTimeSync':
+            i += 1
+        elif v == 'Marker':
+            i = marker(i)
+        elif v == 'Error':
+            strings = hexlen(toks[i]); i += 1
+        elif v not in ('EndOfEntries', 'ProfilingDataDefault'):
+            raise ValueError('response ' + v)
+        final = v == 'ProfilingDataDefault'
+    return {'variant': v, 'data': data, 'strings': strings, 'final': final, 'text': ' '.join(toks[start:i])}, i
+
+
+def parse_link_request(line):
+    """'X kc <cmds> kr <resps>' -> (list of command metas, list of response metas)."""
+    t = line.split()
+    assert t[0] == 'X'
+    i = 1
+    out = []
+    for kind in ('C', 'R'):
+        k = int(t[i]); i += 1
+        ms = []
+        for _ in range(k):
+            m, i = parse_desc(t, i, kind)
+            ms.append(m)
+        out.append(ms)
+    return out[0], out[1]
+
+
+def link_request(cmds, resps):
+    """cmds / resps: descriptions as gen_command / gen_response return them ('C ...' / 'R ...')."""
+    strip = lambda d: d.split(' ', 1)[1]
+    return 'X %d %s %d %s' % (len(cmds), ' '.join(strip(c) for c in cmds), len(resps), ' '.join(strip(r) for r in resps))
+
+
+def chunk_command(rng, data_len, path, mtime=True, more=None):
+    t = r_time(rng) if mtime else 'none'
+    return 'C CreateOrUpdateFile %s %d:%d %s %d' % (hexs(path), data_len, rng.randrange(2 ** 32), t,
+                                                     rng.randrange(2) if more is None else more)
+
+
+def chunk_response(rng, data_len, more=None):
+    return 'R FileContent %d:%d %d' % (data_len, rng.randrange(2 ** 32), rng.randrange(2) if more is None else more)
+
+
+def small_command(rng, final_ok=False):
+    v = rng.choice([c for c in COMMANDS if final_ok or c != 'Shutdown'])
+    return gen_command(rng, v)[0]
+
+
+def small_response(rng, final_ok=False):
+    v = rng.choice([r for r in RESPONSES if final_ok or r != 'ProfilingDataDefault'])
+    return gen_response(rng, v)[0]
+
+
+def listing(rng, n, long_every=50):
+    """Descriptions of the responses of a GetEntries of n entries: files, folders and symlinks under paths of every
+    length (every `long_every`-th one long, with a long link target), then EndOfEntries."""
+    out = []
+    for k in range(n):
+        if k % long_every == long_every - 1:
+            p = long_path(rng, rng.choice([255, 766, 2047, 4000, 4095]), wide=rng.random() < 0.3)
+            d = 'symlink %s %s %s' % (r_kind(rng), rng.choice(['norm', 'notnorm']), hexs(long_path(rng, rng.choice([255, 1000, 4095]))))
+        else:
+            p = long_path(rng, rng.choice([1, 5, 12, 30, 64, 120]), wide=rng.random() < 0.1)
+            d = rng.choice(['folder', 'file %s %d' % (r_time(rng), r_u64(rng)), 'symlink %s %s' % (r_kind(rng), r_target(rng))])
+        out.append('R Entry %s %s' % (hexs(p), d))
+    out.append('R EndOfEntries')
+    return out
